@@ -491,6 +491,8 @@ val modA : nat -> (arch -> arch) -> unit mW
 
 val whenM : bool -> unit mW -> unit mW
 
+val on_err : 'a1 mW -> (w -> w) -> 'a1 mW
+
 val is_locked : w -> bool
 
 val check_locked : unit mW
@@ -499,6 +501,10 @@ val lockM : nat mW
 
 val unlockM : nat -> unit mW
 
+val release_bit : nat -> w -> w
+
+val with_deferred_unlock : nat -> 'a1 mW -> 'a1 mW
+
 val alive : w -> ent -> bool
 
 val is_rel_comp : w -> nat -> bool
@@ -506,6 +512,8 @@ val is_rel_comp : w -> nat -> bool
 val arch_has_rels : arch -> bool
 
 val find_exact : w -> nat list -> rel list -> (w, nat option) res
+
+val rels_distinct : rel list -> bool
 
 val arch_get_table : arch -> rel list -> nat option mW
 
@@ -545,6 +553,8 @@ val new_table :
 
 val place_targets : arch -> rel list -> ent list -> ent list option
 
+val register_targets : rel list -> unit mW
+
 val check_rel : rel -> unit mW
 
 val create_table : nat -> rel list -> nat mW
@@ -570,8 +580,6 @@ val find_or_create_table :
 val set_index : nat -> (nat option * nat) -> unit mW
 
 val get_index : ent -> (nat * nat) mW
-
-val register_targets : rel list -> unit mW
 
 val pool_getM : ent mW
 
@@ -797,8 +805,6 @@ val query_close : nat -> unit mW
 val query_set_table : nat -> nat -> nat -> unit mW
 
 val nt_fail_pos : w -> rel list -> nat list -> nat -> nat -> nat
-
-val on_err : 'a1 mW -> (w -> w) -> 'a1 mW
 
 val query_next_table : nat -> nat list -> bool -> bool mW
 
